@@ -25,7 +25,7 @@ RULE = ("parse/cvlan: every string of length <= L (3 quick, 4 thorough) over a 1
         "S-VLANs x 9 C-VLANs with 3 rebuilds; sweep: random configurations with wide ranges, ALL 4096x4096 pairs looked "
         "up in the harness and compared there with a quadratic reference written in the harness, digest of the whole "
         "table compared with the digest the model computes from ref_lookup over the classes of "
-        "C14_lookup_class_invariant (12 quick / 400 thorough), plus dense sweeps (2 quick / 64 thorough) that together make every S-VLAN and every C-VLAN value an exact index key. l2gw: random configurations with AAA policies on groups and ranges, 45 pairs each pushed through the real internal/l2gw handleTrigger, the published AAA request's group and policy compared with the matched range's (200 quick / 3000 thorough; per-range access-types, a third of the groups mix l2gw and retail ranges); l2fw: the same configurations through the real internal/ipoe forwardToL2GW (hand-off to l2gw iff the matched group has l2gw among its access-types, at group level or on any range). cm: sequences of 2-6 candidate configurations (clean, colliding, malformed) committed through the real pkg/configmgr ConfigManager (LoadConfig+Commit; every third sequence starts with LoadStartupConfig+ApplyLoadedConfig of a YAML file) while 3 reader goroutines call LookupSubscriberGroup, built with -race: verdict and answers after every candidate compared with the step model, every concurrent answer checked to be one accepted generation's answer as a whole and generations never to go backwards per reader (24 quick / 300 thorough). Non-trivial: parse case that is accepted, cfg/sweep/l2gw/l2fw "
+        "C14_lookup_class_invariant (12 quick / 400 thorough), plus dense sweeps (2 quick / 64 thorough) that together make every S-VLAN and every C-VLAN value an exact index key. same-group block: 100+ deterministic configurations with two ranges of ONE group on equal / overlapping S-VLANs with equal, differently spelled or different selectors (cfg cases, and inside cm sequences). l2gw: random configurations with AAA policies on groups and ranges, 45 pairs each pushed through the real internal/l2gw handleTrigger, the published AAA request's group and policy compared with the matched range's (200 quick / 3000 thorough; per-range access-types, a third of the groups mix l2gw and retail ranges); l2fw: the same configurations through the real internal/ipoe forwardToL2GW (hand-off to l2gw iff the matched group has l2gw among its access-types, at group level or on any range). cm: sequences of 2-6 candidate configurations (clean, colliding, malformed) committed through the real pkg/configmgr ConfigManager (LoadConfig+Commit; every third sequence starts with LoadStartupConfig+ApplyLoadedConfig of a YAML file) while 3 reader goroutines call LookupSubscriberGroup, built with -race: verdict (nil-ness of the error), handler applications (none for a rejected candidate) and answers after every candidate compared with the step model, every concurrent answer checked to be one accepted generation's answer as a whole and generations never to go backwards per reader (24 quick / 300 thorough). Non-trivial: parse case that is accepted, cfg/sweep/l2gw/l2fw "
         "case with at least one match and one miss. Distinct: by case text.")
 TRUSTED = ["strings are modelled as lists of Unicode code points; invalid UTF-8 input is outside the model",
            "strings.ToLower is modelled on ASCII only (no other rune lower-cases to a, n or y: checked for every code "
@@ -172,6 +172,22 @@ def gen_cases(rng, tier, budget):
                 groups.append((enc(n), [(enc(rng.choice(svs)), enc(rng.choice(cvs)))
                                         for _ in range(rng.randint(0, 3))]))
         cases.append(cfg_line("cfg", groups, QS))
+    # deterministic block: collisions INSIDE one group (two ranges of one group, same S-VLAN, same selector), exact and
+    # wildcard, overlapping S-VLAN ranges, differently spelled equal strings; and the non-colliding neighbours
+    same = []
+    for sv1, sv2 in (("10", "10"), ("10-12", "12"), ("10-12", "12-14"), ("9-10", "10-11"), ("4094", "4090-4094"),
+                     ("1", "1-2"), ("10", "010"), (" 10 ", "10"), ("10-12", "11"), ("10", "11")):
+        for cv1, cv2 in (("", ""), ("", "any"), ("any", " ANY "), ("100", "100"), ("100", " 100"), ("100", "0100"),
+                         ("4094", "4094"), ("100", "101"), ("", "100"), ("1", "01")):
+            same.append([(enc("g"), [(enc(sv1), enc(cv1)), (enc(sv2), enc(cv2))])])
+            if len(same) % 4 == 0:      # a clean group in front / a third range between the two
+                same.append([(enc("a"), [(enc("20"), enc(""))]),
+                             (enc("g"), [(enc(sv1), enc(cv1)), (enc("30"), enc("")), (enc(sv2), enc(cv2))])])
+    sq = [(s_, c_) for s_ in (9, 10, 11, 12, 13, 14, 1, 2, 4090, 4094) for c_ in (0, 1, 100, 101, 4094)]
+    for groups in same:
+        cases.append(cfg_line("cfg", groups, sq))
+    for i in range(0, len(same), 10 if tier == "quick" else 3):
+        cases.append(cm_line("commit", [[(enc("z"), [(enc("50"), enc(""))])], same[i], [(enc("y"), [(enc("51"), enc(""))])]], sq[:20]))
     # consumer: l2gw trigger -> AAA request (group name + AAA policy of the pair)
     nl = 200 if tier == "quick" else 3000
     lsv = ["10", "10-12", "11", "12", "9-10", "100", "x", "4094", "10 - 11", "11-20"]
@@ -346,6 +362,10 @@ def classify(case, impl, model):
             return "P", ("a concurrent LookupSubscriberGroup returned an answer that no single published generation gives "
                          "(or went back to an older generation): %s" % a[-1])
         d = [i for i, (x, y) in enumerate(zip(a, b)) if x != y]
+        if d and a[d[0]].split(":")[0] == b[d[0]].split(":")[0] and a[d[0]].split(":")[1:2] != b[d[0]].split(":")[1:2]:
+            return "P", ("configuration manager: candidate #%d is %s but its handlers were %s (model %s): a rejected candidate "
+                         "must not reach any handler, rejected BEFORE commit" % (
+                             d[0], a[d[0]].split(":")[0], a[d[0]].split(":")[1], b[d[0]].split(":")[1]))
         if d and a[d[0]].split(":")[0] != b[d[0]].split(":")[0]:
             return "P", ("configuration manager: candidate #%d is %s, the property says %s (colliding / malformed candidates "
                          "are rejected before they are published)" % (d[0], a[d[0]].split(":")[0], b[d[0]].split(":")[0]))
@@ -456,7 +476,7 @@ def distribution(cases, impl):
          "sweep_rowruns_max": 0, "runes": 0, "runes_code_points": 0, "l2gw": 0, "l2gw_requests": 0, "l2gw_no_request": 0,
          "l2gw_range_policy": 0, "l2gw_group_policy_or_none": 0, "l2gw_mixed_access_groups": 0, "l2gw_group_level_access": 0, "l2fw": 0, "l2fw_fwd": 0,
          "l2fw_no": 0, "cm": 0, "cm_boot": 0, "cm_candidates": 0, "cm_published": 0, "cm_rejected": 0,
-         "cm_boot_rejected": 0}
+         "cm_boot_rejected": 0, "cm_rejected_without_handler_call": 0, "cfg_same_group_collision": 0}
     seen = set()
     for c, o in zip(cases, impl):
         k = c.split(" ", 1)[0]
@@ -467,6 +487,7 @@ def distribution(cases, impl):
             d["cm_candidates"] += len(gens)
             d["cm_published"] += sum(g.startswith("valid:") for g in gens)
             d["cm_rejected"] += sum(g.startswith("rejected:") for g in gens)
+            d["cm_rejected_without_handler_call"] += sum(g.startswith("rejected:h0:") for g in gens)
             d["cm_boot_rejected"] += c.split()[1] == "boot" and gens[0].startswith("rejected:")
         elif k == "l2fw":
             r = o.split()
@@ -485,6 +506,8 @@ def distribution(cases, impl):
                     d["l2gw_range_policy" if pol != gp.get(n) else "l2gw_group_policy_or_none"] += 1
         elif k in ("cfg", "cfgnil"):
             v, r = _split(o)
+            if k == "cfg" and v.startswith("rejected") and c.split()[1] == "1":
+                d["cfg_same_group_collision"] += 1
             d["cfg_rejected"] += v.startswith("rejected")
             r = r.split()
             d["lookup_misses"] += r.count("none")
